@@ -140,7 +140,9 @@ fn c15_reverse_reweight(directed: bool, multi: bool, s: u8) {
 
 /// to_single_edges: one edge per group of parallel edges, weight = the group's sum.
 fn c15_collapse(directed: bool, multi: bool, s: u8) {
-    let sh = match shape_w(directed, multi, s, true) {
+    // arbitrary f64 weights incl. NaN (a group mixing weighted and unweighted edges sums to NaN): the
+    // group sum is taken in insertion order by both the implementation and the reference
+    let sh = match shape_w(directed, multi, s, false) {
         Some(x) => x,
         None => return,
     };
@@ -171,7 +173,7 @@ fn c15_collapse(directed: bool, multi: bool, s: u8) {
                 j += 1;
             }
             if first {
-                let mut sum = 0.0;
+                let mut sum = -0.0; // f64's Sum starts from -0.0
                 let mut j = 0;
                 while j < src.m {
                     if (src.eu[j] == u && src.ev[j] == v) || (!directed && src.eu[j] == v && src.ev[j] == u) {
